@@ -122,6 +122,55 @@ narrowing!(narrowing_i16, i16);
 narrowing!(narrowing_u32, u32);
 narrowing!(narrowing_i32, i32);
 
+
+// ---------- the same narrowing step for RangedU64ValueParser: every u64, every range, three target types ----------
+fn enc_u(v: u64, fail: bool) -> [u8; 11] {
+    let mut b = [0u8; 11];
+    let mut i = 0;
+    while i < 10 { b[i] = ((v >> (7 * i)) & 0x7f) as u8; i += 1; }
+    b[10] = if fail { 1 } else { 0 };
+    b
+}
+fn stub_u64_from_str(s: &str) -> Result<u64, std::num::ParseIntError> {
+    let b = s.as_bytes();
+    if b.len() != 11 || b[10] != 0 { return "".parse::<u8>().map(|_| 0u64); }
+    let mut u: u64 = 0;
+    let mut i = 0;
+    while i < 10 { u |= ((b[i] & 0x7f) as u64) << (7 * i); i += 1; }
+    Ok(u)
+}
+macro_rules! narrowing_u {
+    ($name:ident, $t:ty) => {
+        #[kani::proof]
+        #[kani::unwind(13)]
+        #[kani::stub(<u64 as std::str::FromStr>::from_str, stub_u64_from_str)]
+        #[kani::stub(crate::output::Usage::create_usage_with_title, stub_usage)]
+        #[kani::stub(alloc::fmt::format, stub_format)]
+        #[kani::stub(crate::error::Error::with_cmd, stub_with_cmd)]
+        #[kani::stub(std::ffi::OsStr::to_string_lossy, stub_lossy)]
+        pub(super) fn $name() {
+            let cmd = crate::Command::new("x");
+            let v: u64 = kani::any();
+            let fail: bool = kani::any();
+            let lo: u64 = kani::any();
+            let hi: u64 = kani::any();
+            kani::assume(lo <= hi);
+            let b = enc_u(v, fail);
+            let p: RangedU64ValueParser<$t> = RangedU64ValueParser::new().range(lo..=hi);
+            let r = TypedValueParser::parse_ref(&p, &cmd, None, os(&b));
+            let in_t = v <= <$t>::MAX as u64;
+            match r {
+                Ok(t) => { assert!(!fail && lo <= v && v <= hi && in_t); assert!(t as u64 == v); kani::cover!(v == <$t>::MAX as u64); kani::cover!(v == 0); }
+                Err(e) => { assert!(fail || v < lo || v > hi || !in_t); kani::cover!(!fail && lo <= v && v <= hi); kani::cover!(fail); std::mem::forget(e); }
+            }
+            std::mem::forget(cmd);
+        }
+    };
+}
+narrowing_u!(narrowing_u64_u8, u8);
+narrowing_u!(narrowing_u64_u16, u16);
+narrowing_u!(narrowing_u64_u32, u32);
+
 // ---------- C04-bool ----------
 fn is_lit(b: &[u8], s: &str) -> bool {
     let t = s.as_bytes();
